@@ -108,6 +108,16 @@ Definition validate_observation (codec_ok : chandef -> bool) (has_pred : bool) (
   (Z.of_nat (size (ro_values ob)) <=? MaxObservationStreamValuesLength) &&
   forallb (fun kv => match snd kv with STsv _ (SDec _) => true | STsv _ _ => false | _ => true end) (map_to_list (ro_values ob)).
 
+(* ---- Plugin.ValidateObservation as a whole, from the bytes ---- *)
+Definition plugin_validate (codec_ok : chandef -> bool) (has_pred : bool) (seq : Z) (bs : list Z) : res unit :=
+  if seq <? 1 then Err EInvalid
+  else if (seq =? 1) && negb (match bs with [] => true | _ => false end) then Err EInvalid
+  else match decode_observation bs with
+       | Panic s => Panic s
+       | Err e => Err e
+       | Ok ob => if validate_observation codec_ok has_pred ob then Ok tt else Err EInvalid
+       end.
+
 (* ---- Plugin.Observation as a whole (llo/plugin_observation.go) ----
    Inputs besides the previous outcome bytes: the attested retirement report the cache returns (or its error), the
    ShouldRetireCache answer (or its error), the ChannelDefinitionCache contents, the data source (the non-nil values
